@@ -193,6 +193,9 @@ def _run(ex, c, ci, node, res):
     ex.top_qual = c.qual
     ex.ex_block(node.body, st, ctx, lambda st1: on_ret(st1, VNone()))
     ex.drain_loops()
+    for key in c.lemmas:
+        if key not in ex.lemmas_seen:
+            raise StaleContract("%s: lemma anchor %r matches no statement" % (c.qual, key))
 
 
 def _uf_param(name, decl):
